@@ -124,10 +124,32 @@ func trailingBar(v string, unicode bool) (rest, bar string) {
 
 // ---- reference formatting
 
-const exprFormat = "<{0}>"
+// exprFormat is the expression formatter of the harness (built like --format
+// through helpers.BuildFormatter / termformat.FromExpression). It depends on
+// all three arguments a Formatter receives: {0} value, {1} min, {2} max.
+const exprFormat = "<{0}|{1}|{2}>"
 
-// refFormat is what the expression formatter "<{0}>" must print for a value.
-func refFormat(v int64) string { return "<" + strconv.FormatInt(v, 10) + ">" }
+// refFormat is what that formatter must print for (value, min, max).
+func refFormat(v, min, max int64) string {
+	return "<" + strconv.FormatInt(v, 10) + "|" + strconv.FormatInt(min, 10) + "|" + strconv.FormatInt(max, 10) + ">"
+}
+
+// parseRefFormat reads a token printed by exprFormat back.
+func parseRefFormat(tok string) (v, min, max int64, ok bool) {
+	if len(tok) < 7 || tok[0] != '<' || tok[len(tok)-1] != '>' {
+		return
+	}
+	parts := strings.Split(tok[1:len(tok)-1], "|")
+	if len(parts) != 3 {
+		return
+	}
+	var err [3]error
+	v, err[0] = strconv.ParseInt(parts[0], 10, 64)
+	min, err[1] = strconv.ParseInt(parts[1], 10, 64)
+	max, err[2] = strconv.ParseInt(parts[2], 10, 64)
+	ok = err[0] == nil && err[1] == nil && err[2] == nil
+	return
+}
 
 // ---- alignment ("table columns line up")
 
